@@ -181,7 +181,7 @@ def build_rcell(sp):
 
 
 DAG_OPS = ['to_boc', 'to_boc_idx_crc', 'to_boc_cache', 'order', 'order_arg', 'from_boc_own', 'from_boc_ref', 'copy', 'hash_eq', 'walk', 'to_builder', 'slice_to_cell', 'wrap', 'repr_hash',
-           'slice_from_boc', 'store_cell', 'slice_from_cell', 'slice_copy', 'store_slice', 'eq_inner', 'pair_to_boc', 'parsed_twice']
+           'slice_from_boc', 'store_cell', 'slice_from_cell', 'slice_copy', 'store_slice', 'eq_inner', 'pair_to_boc', 'parsed_twice', 'order_filled']
 
 
 class St:
@@ -213,7 +213,7 @@ class WorkWorld(World):
 
     def rule(self):
         return ('Time = executed source lines of pytoniq_core (step clock). dag: for a family in {chain, ladder with 2/3/4 repeated references, fibonacci, diamond chain, comb, grid (binomially many paths), '
-                'random heavy sharing, unshared 4-ary tree, ladders of Merkle updates / proofs and mixed exotic-ordinary ladders, pruned-branch fans} at n distinct cells and e references (n+e <= 160) each of 19 operations (to_boc in 3 option sets, order with and without argument, from_boc of own '
+                'random heavy sharing, unshared 4-ary tree, ladders of Merkle updates / proofs and mixed exotic-ordinary ladders, pruned-branch fans} at n distinct cells and e references (n+e <= 160) each of 23 operations (to_boc in 3 option sets, order with and without argument and of several roots into one already filled bag, from_boc of own '
                 'and of reference-encoded bytes, copy, hash/==/dict key, slice walk, to_builder, Slice.to_cell, wrapping store_ref+end_cell, recomputed representation hash, Slice.one_from_boc, '
                 'store_cell, Slice.from_cell, Slice.copy, store_slice) must finish within 10000 + 5000(n+e) + 50(n+e)^2 steps, and steps(2n) <= 8 steps(n) + 10000. boc-bytes / tl-bytes: every damaged input of length L must finish (return '
                 'or raise) within 10000 + 5000 L steps; per sampled input the byte-position x extreme-value set is enumerated exhaustively. dict: parse of a dictionary tree of c cells within the dag '
@@ -276,6 +276,19 @@ class WorkWorld(World):
             return lambda: root.order()
         if what == 'order_arg':
             return lambda: root.order({})
+        if what == 'order_filled':
+            # the documented accumulator use of the argument: several roots ordered into ONE bag - a sub-DAG first, then the root above
+            # it, an equal copy held as other objects, and the root once more (everything it reaches is in the bag already)
+            other = aux['twin']
+
+            def order_filled():
+                bag = {}
+                (root.refs[-1] if root.refs else root).order(bag)
+                root.order(bag)
+                other.order(bag)
+                root.order(bag)
+                return len(bag)
+            return order_filled
         if what == 'from_boc_own':
             data = aux.get('own')
             return (lambda: Cell.one_from_boc(data)) if data is not None else None
